@@ -1,4 +1,9 @@
-import SalsaVerif.Gen.Edge
-import SalsaVerif.Gen.Stamp
-import SalsaVerif.Gen.Ids
-import SalsaVerif.Gen.Consts
+-- root module: imports every property module that is claimed
+import SalsaVerif.Props.C01
+import SalsaVerif.Props.C02
+import SalsaVerif.Props.C03
+import SalsaVerif.Props.C20
+import SalsaVerif.Props.C21
+import SalsaVerif.Props.C23
+import SalsaVerif.Props.C24
+import SalsaVerif.Props.C25
